@@ -23,10 +23,12 @@ Simple(k, n) ==
     [] k = "pcall"  -> CallStmt(Chain(<<Par(Name("g")), CallArgs(<<Name("a" \o n)>>)>>))
     [] k = "assign" -> Assign(<<Name("w" \o n)>>, <<Bin("+", Name("x"), Num("1"))>>)
     [] k = "table"  -> Local(<<"t" \o n>>, <<Table(<<FName("p", Num("1")), FName("q", Num("2"))>>)>>)
+    [] k = "compound" -> Compound("+=", Name("w" \o n), Name("y"))
     [] k = "return" -> Return(<<Name("r")>>)
 
-Inner(k) == CASE k = "do" -> <<"local", "call">> [] k = "repeat" -> <<"call">> [] k = "if" -> <<"assign">> [] k = "func" -> <<"local", "return">> [] OTHER -> <<>>
-IsContainer(k) == k \in {"do", "if", "func", "repeat"}
+Inner(k) == CASE k = "do" -> <<"local", "call">> [] k = "repeat" -> <<"call">> [] k = "if" -> <<"assign">> [] k = "func" -> <<"local", "return">>
+              [] k = "afunc" -> <<"local", "return">> [] OTHER -> <<>>
+IsContainer(k) == k \in {"do", "if", "func", "repeat", "afunc"}
 Size(k) == 1 + Len(Inner(k))
 
 RECURSIVE Base(_, _)
@@ -47,6 +49,8 @@ ItemTree(p, ds, j) ==
              [] k = "if"   -> If(Name("c"), Block(inner))
              [] k = "func" -> LocalFunction("h", <<>>, Block(inner))
              [] k = "repeat" -> Repeat(Block(inner), Name("done"))
+             \* an anonymous function as the value of a local: a range can hold the whole `function .. end` without holding the statement
+             [] k = "afunc" -> Local(<<"cb">>, <<Func(<<"p", "q">>, Block(inner))>>)
              [] OTHER      -> Simple(k, "t"), ds, b)
 
 Programs == UNION {[1..n -> ItemKinds] : n \in 1..MaxTop}
@@ -101,7 +105,7 @@ RangeDev == {devs[i] : i \in {j \in DOMAIN devs : devs[j].t = "range"}}
 Case ==
   [ tree |-> Block([j \in DOMAIN prog |-> ItemTree(prog, devs, j)]),
     layout |-> [profile |-> "messy", comments |-> Comments],
-    cfg |-> [syntax |-> "Lua51"],
+    cfg |-> [syntax |-> IF \E j \in DOMAIN prog : prog[j] = "compound" THEN "Luau" ELSE "Lua51"],
     meta |-> [src |-> "Block", prog |-> prog, devs |-> devs, nstmts |-> NStmts(prog)] ]
   @@ (IF RangeDev = {} THEN <<>> ELSE
         LET r == CHOOSE d \in RangeDev : TRUE IN
@@ -109,7 +113,7 @@ Case ==
 
 (* `f(a)` followed by `(g)(a)` is ONE statement unless a `;` separates them: such programs are not what
    the generator means (not faithful), so they are only emitted once the `;` deviation is present *)
-EndsInExpr(k) == k \in {"local", "call", "pcall", "assign", "table", "repeat"}
+EndsInExpr(k) == k \in {"local", "call", "pcall", "assign", "table", "repeat", "compound"}
 NeedsSemiOK ==
   /\ \A j \in 1..(Len(prog) - 1) :
         (prog[j + 1] = "pcall" /\ EndsInExpr(prog[j])) => HasDev(devs, "semi", Base(prog, j))
